@@ -460,7 +460,10 @@ def canon(a):
         if k == "sparse":
             return ["obj", me, tn, ["sparse", sha(p)]]
         if k == "rng":
-            return ["obj", me, tn, ["rng", canon(p[-1])]]
+            # [rng, bitgen-name, bit_generator.state, seed_seq.state or None]: RandomState has no seed sequence of its own
+            if len(p) == 2:
+                return ["obj", me, tn, ["rng", canon(p[1])]]
+            return ["obj", me, tn, ["rng", canon(p[2])] + ([canon(p[3])] if len(p) > 3 and p[3] is not None else [])]
         if k == "partial":
             return ["obj", me, tn, ["partial", canon(p[1]), canon(p[2]), canon(p[3])]]
         if k == "opfunc":
